@@ -88,7 +88,8 @@ LEVEL_TEXT = ('Machine-checked theorems for every pattern of the modelled sublan
               'over the legacy path= (regenerated statement); the declarations surviving include overrides are characterised (each at the '
               'index of its own declaration, in order) and the regenerated program on them equals the specification. For ANY '
               'anchor and DOTALL flag a match decomposes the path along the pattern up to what the end of the regex accepts; with the old '
-              '$ anchor that is at most ONE final newline (C01_match_sound_dollar). The '
+              '$ anchor that is at most ONE final newline (C01_match_sound_dollar). End to end: a route selected by the regenerated __call__ '
+              'decomposes the whole decoded path, its predicates hold and no earlier route qualifies; none is selected iff none qualifies. The '
               'extracted regenerated program is run against RoutesMapper and Router.')
 LEVEL_NOTE = ('Trusted: Coq kernel; the translator and its primitive table (harness/c01/translate.py); the hand-written model of the '
               'pattern parser (masked pin + regenerated literals) and the link between the matcher closure\'s groupdict and the '
